@@ -14,7 +14,9 @@ done
 cp "$S/ev/"*.json /verif/evidence/
 cd /verif/harness
 go tool covdata textfmt -i="$S/data" -pkg=github.com/asticode/go-astits -o "$S/astits.txt"
-python3 - "$S/astits.txt" <<'PY'
+go tool covdata textfmt -i="$S/data" -pkg=verifharness/gen,verifharness/props,verifharness/refts -o "$S/harness.txt"
+for f in "$S/astits.txt" "$S/harness.txt"; do
+python3 - "$f" <<'PY'
 import re, sys, collections
 cov = collections.defaultdict(int)
 for l in open(sys.argv[1]):
@@ -31,4 +33,5 @@ for k, v in sorted(cov.items()):
 for f, v in by.items():
     print(f, ' '.join(v))
 PY
+done
 rm -rf "$S/bin" "$S/data" "$S/ev"
